@@ -19,6 +19,48 @@ type mSig struct {
 	Msg int  `json:"msg"`
 }
 
+// mBk is a decoded bookkeeper key object: the genuine object of pool key K, or (Forged) some other
+// object whose PubkeyID names key K (unknownID when it names nobody).
+type mBk struct {
+	K      int  `json:"k"`
+	Forged bool `json:"forged,omitempty"`
+}
+
+const unknownID = 999998
+
+func coqBks(bs []mBk) string {
+	it := make([]string, len(bs))
+	for i, b := range bs {
+		if b.Forged {
+			it[i] = fmt.Sprintf("BkForged %d", b.K)
+		} else {
+			it[i] = fmt.Sprintf("BkKey %d", b.K)
+		}
+	}
+	return hx.CoqList(it)
+}
+
+// bkIDs: the PubkeyID ids of the listed key objects (what membership and the distinct count see).
+func bkIDs(bs []mBk) []int {
+	out := make([]int, len(bs))
+	for i, b := range bs {
+		out[i] = b.K
+	}
+	return out
+}
+
+// bkGenuine: per position the pool key whose genuine object is listed, or -1.
+func bkGenuine(bs []mBk) []int {
+	out := make([]int, len(bs))
+	for i, b := range bs {
+		out[i] = b.K
+		if b.Forged {
+			out[i] = -1
+		}
+	}
+	return out
+}
+
 type mCfg struct {
 	C     uint32 `json:"c"`
 	Peers []int  `json:"peers"` // key ids in config order (may repeat; >= 1000: ids no key maps to)
@@ -31,7 +73,7 @@ type mHeader struct {
 	InfoOK bool    `json:"info_ok"`
 	Last   uint32  `json:"last"`
 	Cfg    *mCfg   `json:"cfg,omitempty"`
-	Bks    []int   `json:"bks"`
+	Bks    []mBk   `json:"bks"`
 	Sigs   []mSig  `json:"sigs"`
 	Hash   int     `json:"hash"`
 }
@@ -71,7 +113,7 @@ func coqHeader(h *mHeader) string {
 	if h.InfoOK {
 		info = fmt.Sprintf("(Some (mk_info %d %s))", h.Last, coqCfg(h.Cfg))
 	}
-	return fmt.Sprintf("(mk_header %d %d %d %s %s %s %d)", h.Height, h.Prev, h.Time, info, coqKeys(h.Bks), coqSigs(h.Sigs), h.Hash)
+	return fmt.Sprintf("(mk_header %d %d %d %s %s %s %d)", h.Height, h.Prev, h.Time, info, coqBks(h.Bks), coqSigs(h.Sigs), h.Hash)
 }
 
 // peer map: height -> key ids (sorted)
